@@ -3,9 +3,10 @@
    so its length only scales the state space), every variant, every truncation point, every chunking
    built from chunks of 1..ChunkMax bytes or "the rest".                                          *)
 EXTENDS Framing
-SmallMsgs == << [kind |-> "call",     idk |-> "num",  id |-> [t |-> "num", v |-> "7", n |-> 7], blen |-> 3,  rlen |-> 3],
-                [kind |-> "notify",   idk |-> "none", id |-> [t |-> "none", v |-> "", n |-> NoNum], blen |-> 5,  rlen |-> 4],    \* one 2-byte character
+SmallMsgs == << [kind |-> "call",     idk |-> "num",  id |-> [t |-> "num", v |-> "7", n |-> 7], pay |-> "object", blen |-> 3,  rlen |-> 3],
+                [kind |-> "notify",   idk |-> "none", id |-> [t |-> "none", v |-> "", n |-> NoNum], pay |-> "string", blen |-> 5,  rlen |-> 4],    \* one 2-byte character
                 \* a 4-byte character: two-digit length; its id is the STRING "7"
-                [kind |-> "response", idk |-> "str",  id |-> [t |-> "str", v |-> "7", n |-> 7], blen |-> 12, rlen |-> 9] >>
+                \* ... and its result is JSON null: the successful answer to a void request (LSP shutdown)
+                [kind |-> "response", idk |-> "str",  id |-> [t |-> "str", v |-> "7", n |-> 7], pay |-> "null", blen |-> 12, rlen |-> 9] >>
 VariantsDef == AllVariants
 =============================================================================
